@@ -125,7 +125,8 @@ class ResourceTransformer:
             uris: A list of absolute URI strings to process
             cache: Specifies whether to catch the initial parsed classes
         """
-        cache_file = self.get_cache_file(uris) if cache else None
+        package = self.config.output.package
+        cache_file = self.get_cache_file(uris, package) if cache else None
         if cache_file and cache_file.exists():
             logger.info(f"Loading from cache {cache_file}")
 
@@ -435,15 +436,19 @@ class ResourceTransformer:
         return main, inner
 
     @classmethod
-    def get_cache_file(cls, uris: list[str]) -> Path:
-        """Return the cache path for the raw mapped classes.
+    def get_cache_file(cls, uris: list[str], package: str = "") -> Path:
+        """Return the cache file path for the given resources and target package.
+
+        The classes mapped from json documents are named after
+        the target package, it has to be part of the cache key.
 
         Args:
             uris: A list of URI strings
+            package: The target package name
 
         Returns:
             A temporary file path instance
         """
-        key = hashlib.md5("".join(uris).encode()).hexdigest()
+        key = hashlib.md5("".join([*uris, package]).encode()).hexdigest()
         tempdir = tempfile.gettempdir()
         return Path(tempdir).joinpath(f"xsdata.{__version__}.{key}.cache")
